@@ -205,6 +205,10 @@ theorem vl_structure (cfg : VLCfg) (meth : Method) (orders : List (List String))
     simp only [h1] at h
     have r1 := findOptimalOctaves_spec cfg fuel s s1 hn h1
     refine ⟨s1, All2.imp (fun _ _ hx => hx.1) r1, ?_⟩
+    -- a score without chords: `find_optimal_octaves` returns `None`, `optimize(None)` raises
+    cases he : s1.isEmpty
+    case true => simp [he] at h
+    simp only [he, Bool.false_eq_true, if_false] at h
     unfold VLCfg.optimize at h
     simp only [bind, Except.bind] at h
     cases h2 : cfg.init s1 orders with
